@@ -9,7 +9,7 @@ CHECKS = {
  "C10": dict(
   level="model_checking",
   technique="explicit-state BFS over the Parser-contract automaton; every transition replayed on the real store.CreateInMemory; invariant checked in every state",
-  text="All legal Parser event sequences up to depth 6 (quick) / 8 (thorough) over a 14-event alphabet are enumerated breadth-first (surplus end events included: every event is also replayed directly after one); each one is replayed into a fresh real in-memory store and the whole Cursor contract (structure = model, Pos unique/ordered, parent links, per-element namespace ownership, call depth bounded by open elements at every Pull) is checked on the resulting tree. Large flat/sibling/nested streams (up to 3*10^6 events) run in a subprocess under a 64 MB stack limit.",
+  text="All legal Parser event sequences up to depth 6 (quick) / 8 (thorough) over a 14-event alphabet are enumerated breadth-first (surplus end events included: every event is also replayed directly after one); each one is replayed into a fresh real in-memory store and the whole Cursor contract (structure = model, Pos unique/ordered, parent links, per-element namespace ownership, call depth bounded by open elements at every Pull) is checked on the resulting tree. Long documents: EVERY item count from 1 to 1100 in three shapes (elements with attribute and text; rotating leaf kinds; one element with k attributes) plus 2049/4097/65537 items, with the same full tree comparison. Large flat/sibling/nested streams (up to 3*10^6 events) run in a subprocess under a 64 MB stack limit.",
   note="Trusted: the 60-line reference builder impl.FromEvents (inheritance of namespace bindings by prefix). Event values outside the alphabet, duplicate prefixes/attribute names on one element and sequences longer than the bound are not covered.",
   ref="2 C10"),
 }
@@ -24,7 +24,7 @@ CHECKS.update({
  "C02": dict(
   level="exploration",
   technique="bounded-exhaustive enumeration of documents x predicate-bearing paths on the real evaluator against a reference evaluator",
-  text="All forests with <=4/5 nodes x 2 decorations x thousands of predicate-bearing expressions (every axis x tests x 30 predicates, ordered predicate pairs, nested predicates, filter expressions with predicates and continued paths, node-set variables and a user function as path heads); surviving nodes compared by identity with the reference.",
+  text="All forests with <=4/5 nodes x 2 decorations x thousands of predicate-bearing expressions (every axis x tests x 41 predicates - incl. position()/last() inside function-call arguments -, ordered predicate pairs, nested predicates, filter expressions with predicates and continued paths, node-set variables and a user function as path heads); surviving nodes compared by identity with the reference.",
   note="Trusted: reference evaluator refxp. Only which nodes survive is compared here (order is C03).",
   ref="2 C02"),
  "C03": dict(
@@ -60,7 +60,7 @@ CHECKS.update({
  "C18": dict(
   level="exploration",
   technique="bounded-exhaustive enumeration of documents x starting nodes x relative expressions against the reference, plus path-split composition checked implementation-against-itself",
-  text="All forests <=3/4 nodes x 4 decorations: every node of every kind as Exec starting cursor for ~190 relative expressions (vs. reference at context (n,1,1)); 30 prefixes x 40 suffixes: Exec(root,P/R) against the union of Exec(n,R); P/f() against f(P) for the 7 context-dependent builtins.",
+  text="All forests <=3/4 nodes x 4 decorations: every node of every kind as Exec starting cursor for ~190 relative expressions (vs. reference at context (n,1,1)); 30 prefixes x 50 suffixes (incl. numeric predicates not spelled as numbers: [$n], [count(../*) - 1], [string-length(name())]): Exec(root,P/R) against the union of Exec(n,R); P/f() against f(P) for the 7 context-dependent builtins.",
   note="Unmarshal tag context is covered in C19.",
   ref="2 C18"),
  "C11": dict(
@@ -96,19 +96,19 @@ CHECKS.update({
  "C17": dict(
   level="exploration",
   technique="exhaustive enumeration of all tag-soup token strings up to a length bound through the real reader against an independent walk of the HTML5 parser's DOM",
-  text="Doctype + every token string of length <=4/5 over a 23-token and a 49-token tag-soup alphabet (namespace-looking attributes, multi-colon names, entities, raw-text elements): cursor tree vs. independent recursive walk of html.Parse; deep/wide families; doctype requirement.",
+  text="Doctype + every token string of length <=4/5 over a 23-token and a 49-token tag-soup alphabet (namespace-looking attributes, multi-colon names, entities, raw-text elements): cursor tree vs. independent recursive walk of html.Parse; deep/wide families; 4 byte-order marks x 11 meta charset declarations x 9 payloads of high/invalid/multi-byte bytes (tree = html.Parse of the same bytes, no transcoding). Documents without a doctype are outside the statement: recorded, only required to return.",
   note="golang.org/x/net/html is the HTML5 algorithm the statement names (trusted).",
   ref="2 C17"),
  "C19": dict(
   level="exploration",
   technique="bounded-exhaustive enumeration of reflect-generated target types x tag expressions x nodes against values derived from separate Exec calls",
-  text="50 field/element types (all supported kinds, pointer chains, nestings, the unsupported kinds, and defined types of supported kinds - error or converted value, never a panic) x 30 tag expressions (both tiers) x every element of 3 documents as *T and **T; slice targets over node-sets of 0-3 nodes in both orders; 36 ill-shaped targets and results; expected values from separate Exec calls plus the statement's conversion table; never a panic; untagged fields untouched.",
+  text="50 field/element types (all supported kinds, pointer chains, nestings, the unsupported kinds, and defined types of supported kinds - error or converted value, never a panic) x 37 tag expressions (both tiers; incl. magnitudes around 2^31, 2^32, 2^63, 2^64 - exact limits of the 64-bit kinds) x every element of 3 documents as *T and **T; slice targets over node-sets of 0-3 nodes in both orders; 36 ill-shaped targets and results; expected values from separate Exec calls plus the statement's conversion table; never a panic; untagged fields untouched.",
   note="Exec is trusted here (verified by C01-C07). Unrepresentable float->int conversions only required not to panic.",
   ref="2 C19"),
  "C13": dict(
   level="model_checking",
   technique="explicit-state BFS over call histories (Exec/Unmarshal/BuildExpr on shared objects) with state de-duplication; every transition replayed on fresh real objects; deep reflective fingerprints as invariant",
-  text="States are the contents/length/capacity of two caller-held node-set slots on two documents; 150+ operations per state (39 menu expressions from 3 context nodes, results optionally kept - also re-sliced with spare capacity -, Unmarshal, BuildExpr); depth 2 (quick) / 3 (thorough). After every call: fingerprints (unexported fields, spare capacity, cyclic pointers) of the tree, both slots' full-capacity views, all compiled expressions and the caller's maps unchanged; the result equals the same call's result in every other history; reused compiled expression = freshly built one. Process histories: every ordered pair of 80 calls (32 near-duplicate expression texts; 8 texts x 3 context nodes x 2 documents) in a FRESH process - the second call's outcome must equal its outcome in a process where nothing ran before. Parser order: every ambiguous alternative list of every built C08 query rotated.",
+  text="States are the contents/length/capacity of two caller-held node-set slots on two documents; 150+ operations per state (41 menu expressions from 3 context nodes, results optionally kept - also re-sliced with spare capacity -, Unmarshal, BuildExpr); depth 2 (quick) / 3 (thorough). After every call: fingerprints (unexported fields, spare capacity, cyclic pointers) of the tree, both slots' full-capacity views, all compiled expressions and the caller's namespace, variable and function maps unchanged; the result equals the same call's result in every other history; reused compiled expression = freshly built one. Process histories: every ordered pair of 80 calls (32 near-duplicate expression texts; 8 texts x 3 context nodes x 2 documents) in a FRESH process - the second call's outcome must equal its outcome in a process where nothing ran before. Parser order: every ambiguous alternative list of every built C08 query rotated.",
   note="BuildExpr repeatability over the parser's internal (map-iteration) ordering is enumerated at deviation bound 1: every ambiguous alternative list of every built C08 query is rotated so that each alternative comes first once (reflection on the parse forest, no hook); simultaneous deviations in two lists are not enumerated.",
   ref="2 C13"),
  "C14": dict(
@@ -126,7 +126,7 @@ CHECKS.update({
  "C15": dict(
   level="exploration",
   technique="exhaustive enumeration of all strings up to a length bound over five byte/token alphabets through every public entry point, in worker subprocesses",
-  text="All expression token strings (<=3/4 tokens incl. nil variables and user functions returning (nil,nil)/errors/panicking) built and executed on 2 documents under 3 binding sets; all expression byte strings <=4/5 over 23 symbols incl. invalid UTF-8, NUL and valid multi-byte characters; all XML/JSON byte strings <=5/6 and HTML token strings <=4/5 through the readers followed by 6 queries; the well-typed C01/C08 universes from every node (no 'xpath query panic'); an Unmarshal sweep (7 result shapes x 8 target shapes x 50 field types incl. defined types x tags); nesting-depth sweeps in subprocesses. Oracle: returns (value,nil) or (_,err); no panic escapes; the process survives.",
+  text="All expression token strings (<=3/4 tokens incl. nil variables and user functions returning (nil,nil)/errors/panicking) built and executed on 2 documents under 3 binding sets; all expression byte strings <=4/5 over 23 symbols incl. invalid UTF-8, NUL and valid multi-byte characters; all XML/JSON byte strings <=5/6 and HTML token strings <=4/5 through the readers followed by 6 queries; the well-typed C01/C08 universes from every node (no 'xpath query panic'); an Unmarshal sweep (7 result shapes x 8 target shapes x 50 field types incl. defined types x tags); a catalogue of 150+ charset labels (supported, registered but unsupported, stateful, unknown, odd spellings) in XML declarations and HTML meta elements x 5 bodies; nesting-depth sweeps in subprocesses. Oracle: returns (value,nil) or (_,err); no panic escapes; the process survives.",
   note="Bounded exhaustive, not coverage-guided. Unmarshal targets are covered by C19. Termination of pathological parses (the GLL parser is super-linear in '/*/*...') beyond the sweep sizes is not judged.",
   ref="2 C15"),
 })
